@@ -1,38 +1,49 @@
 #!/bin/bash
-# tools/seedcheck.sh <patch.diff> <demo.rs> <outdir> [checks...]
-# 1. scratch worktree: apply patch, 59-test baseline must pass, demo must fail; revert, demo must pass.
-# 2. apply to /repo, run the quick checks (all 18 unless given), undo. Writes <outdir>/result.json.
+# tools/seedcheck.sh phase1 <patch.diff> <demo.rs> <outdir> [lane]
+#     scratch worktree (outside /repo and /verif): apply patch, the 59-test baseline must pass, the demo must fail;
+#     revert, the demo must pass. Writes <outdir>/phase1.json. Several lanes may run in parallel (own target dirs).
+# tools/seedcheck.sh phase2 <patch.diff> <outdir> [checks...]
+#     apply the patch to /repo, run the quick checks (all 18 unless given), undo. Writes <outdir>/phase2.json.
+#     Never run two phase2 (or any other ./check) at the same time: they share /repo and the harness target dir.
 set -u
-PATCH="$(readlink -f "$1")"; DEMO="$(readlink -f "$2")"; OUT="$3"; shift 3
-CHECKS="${*:-C01 C02 C03 C04 C05 C06 C07 C08 C09 C10 C11 C12 C13 C14 C15 C16 C17 C18}"
-mkdir -p "$OUT"
-WT="/tmp/sv/wt-$$"
-mkdir -p /tmp/sv
-git -C /repo worktree add -q --detach "$WT" HEAD || exit 2
-cleanup() { git -C /repo worktree remove --force "$WT" 2>/dev/null; rm -rf "$WT"; }
-trap cleanup EXIT
-cd "$WT"
-export CARGO_TARGET_DIR=/tmp/sv/target   # shared between seeds to save rebuild time / disk
-if ! git apply "$PATCH"; then echo '{"error":"patch does not apply"}' > "$OUT/result.json"; exit 1; fi
-cargo test --workspace --no-fail-fast --offline > "$OUT/baseline.log" 2>&1
-PASSED=$(grep -E "^test result" "$OUT/baseline.log" | sed -E 's/.* ([0-9]+) passed.*/\1/' | paste -sd+ | bc)
-FAILED=$(grep -E "^test result" "$OUT/baseline.log" | sed -E 's/.* ([0-9]+) failed.*/\1/' | paste -sd+ | bc)
-cp "$DEMO" tests/demo.rs
-cargo test --offline --features stream,raw_decoder --test demo > "$OUT/demo_with.log" 2>&1; DEMO_WITH=$?
-git checkout -q -- src Cargo.toml 2>/dev/null
-cargo test --offline --features stream,raw_decoder --test demo > "$OUT/demo_without.log" 2>&1; DEMO_WITHOUT=$?
-rm -f tests/demo.rs
-cd /verif
-# run the checks on /repo itself
-DET=""
-if git -C /repo apply "$PATCH"; then
-  for c in $CHECKS; do
-    ./check $c quick > "$OUT/$c.log" 2>&1; rc=$?
-    DET="$DET \"$c\": $rc,"
-  done
-  git -C /repo checkout -- .
+PHASE="$1"; shift
+if [ "$PHASE" = "phase1" ]; then
+  PATCH="$(readlink -f "$1")"; DEMO="$(readlink -f "$2")"; OUT="$3"; LANE="${4:-0}"
+  mkdir -p "$OUT" /tmp/sv
+  WT="/tmp/sv/wt-$$"
+  git -C /repo worktree add -q --detach "$WT" HEAD || exit 2
+  trap 'git -C /repo worktree remove --force "$WT" 2>/dev/null; rm -rf "$WT"' EXIT
+  cd "$WT"
+  export CARGO_TARGET_DIR=/tmp/sv/target-$LANE
+  if ! git apply "$PATCH"; then echo '{"error":"patch does not apply"}' > "$OUT/phase1.json"; exit 1; fi
+  cargo test --workspace --no-fail-fast --offline > "$OUT/baseline.log" 2>&1
+  PASSED=$(grep -E "^test result" "$OUT/baseline.log" | sed -E 's/.* ([0-9]+) passed.*/\1/' | paste -sd+ | bc)
+  FAILED=$(grep -E "^test result" "$OUT/baseline.log" | sed -E 's/.* ([0-9]+) failed.*/\1/' | paste -sd+ | bc)
+  cp "$DEMO" tests/demo.rs
+  cargo test --offline --features stream,raw_decoder --test demo > "$OUT/demo_with.log" 2>&1; DW=$?
+  git checkout -q -- src Cargo.toml 2>/dev/null
+  cargo test --offline --features stream,raw_decoder --test demo > "$OUT/demo_without.log" 2>&1; DWO=$?
+  echo "{\"baseline_passed\": ${PASSED:-0}, \"baseline_failed\": ${FAILED:-0}, \"demo_exit_with_change\": $DW, \"demo_exit_without_change\": $DWO}" > "$OUT/phase1.json"
+  cat "$OUT/phase1.json"
+elif [ "$PHASE" = "phase2" ]; then
+  PATCH="$(readlink -f "$1")"; OUT="$2"; shift 2
+  CHECKS="${*:-C01 C02 C03 C04 C05 C06 C07 C08 C09 C10 C11 C12 C13 C14 C15 C16 C17 C18}"
+  mkdir -p "$OUT"
+  unset CARGO_TARGET_DIR
+  cd /verif
+  if [ -n "$(git -C /repo status --porcelain)" ]; then echo "refusing: /repo not clean" >&2; exit 2; fi
+  DET=""
+  if git -C /repo apply "$PATCH"; then
+    for c in $CHECKS; do
+      ./check $c quick > "$OUT/$c.log" 2>&1; rc=$?
+      DET="$DET \"$c\": $rc,"
+    done
+    git -C /repo checkout -- .
+  else
+    DET="\"apply_to_repo_failed\": 1,"
+  fi
+  echo "{\"checks\": {${DET%,}}}" > "$OUT/phase2.json"
+  cat "$OUT/phase2.json"
 else
-  DET="\"apply_to_repo_failed\": 1,"
+  echo "usage: seedcheck.sh phase1|phase2 ..." >&2; exit 2
 fi
-echo "{\"baseline_passed\": ${PASSED:-0}, \"baseline_failed\": ${FAILED:-0}, \"demo_exit_with_change\": $DEMO_WITH, \"demo_exit_without_change\": $DEMO_WITHOUT, \"checks\": {${DET%,}}}" > "$OUT/result.json"
-cat "$OUT/result.json"
